@@ -2502,7 +2502,10 @@ func (h *ResponseHeader) AppendBytes(dst []byte) []byte {
 		dst = appendHeaderLine(dst, strContentEncoding, contentEncoding)
 	}
 
-	if len(h.contentLengthBytes) > 0 {
+	// SetContentLength ignores 1xx, 204 and 304 responses; a length recorded
+	// before the status was set (for a body that was replaced since) must not
+	// go out with them either.
+	if len(h.contentLengthBytes) > 0 && !h.mustSkipContentLength() {
 		dst = appendHeaderLine(dst, strContentLength, h.contentLengthBytes)
 	}
 
